@@ -39,6 +39,10 @@ def run(run, replay=None):
     rng = random.Random(run.seed)
     quick = run.tier == 'quick'
     run.mc('Scope', SCOPE_CFG, note='encoding scope machine, complete graph (STRICT), all histories')
+    # model-level canary: with the (repaired) single-pop deviation switched on, REff must fail
+    run.mc('Scope', 'SPECIFICATION Spec\nCONSTANTS Enc = {e1, e2}  None = None  PopOne = TRUE\nINVARIANT REff\n'
+                    'CONSTRAINT Bound\nCHECK_DEADLOCK FALSE\n', expect='violation', workers=1,
+           note='model-level canary: D_ReaderPopOne (finding F1, fixed) must violate REff - the invariant is not vacuous')
     cat = Catalog()
     _rcommon.note_pools(cat)
     behs = wgen.accepted_paths(run, rng, 6 if quick else 8, 2, 0, content_enc='FALSE')
